@@ -116,6 +116,26 @@ Definition split_into_lists (s : str) : nv :=
 Definition sep_at (depth : nat) : option char :=
   match depth with O => Some sep0 | 1%nat => Some sep1 | _ => None end.
 
+(* one level of joining, on the texts of the elements:
+       parts = [join_from_lists(e, depth + 1) for e in value]
+       joined = SEPARATORS[depth].join(parts)
+   a one-element list gets a trailing separator ("to distinguish 1-element lists from basic types").
+   On the repaired tree (finding packed-model-blank-value-under-nonblank-default) so does a list whose last
+   part is the empty text — the reader drops one empty element after a final separator, so `a;` reads as [a]
+   and `a;;` as [a, ""] —: `if len(parts) == 1 or (parts and parts[-1] == "")`.  Whether the tree does is the
+   PROBED constant join_keeps_blank_last (translator/tables_rowfix.py). *)
+Definition ends_blank (ps : list str) : bool :=
+  match ps with
+  | [] => false
+  | _ => match last ps [0] with [] => true | _ => false end
+  end.
+
+Definition join_parts (sep : char) (ps : list str) : str :=
+  match ps with
+  | [p] => p ++ [sep]
+  | _ => if join_keeps_blank_last && ends_blank ps then join_char sep ps ++ [sep] else join_char sep ps
+  end.
+
 Fixpoint join_from_lists (depth : nat) (v : nv) : option str :=
   match v with
   | Str s => Some (escape_string s)
@@ -133,8 +153,7 @@ Fixpoint join_from_lists (depth : nat) (v : nv) : option str :=
         end in
       match join_all l with
       | None => None
-      | Some [p] => Some (p ++ [sep])
-      | Some ps => Some (join_char sep ps)
+      | Some ps => Some (join_parts sep ps)
       end
     end
   end.
